@@ -51,6 +51,23 @@ type variant struct {
 	norm func(out []byte) []byte
 }
 
+// c13StripANSI removes ESC [ ... m sequences (a raw ESC never occurs in JSON text otherwise).
+func c13StripANSI(b []byte) []byte {
+	out := b[:0:0]
+	for i := 0; i < len(b); i++ {
+		if b[i] == 0x1b && i+1 < len(b) && b[i+1] == '[' {
+			j := i + 2
+			for j < len(b) && b[j] != 'm' {
+				j++
+			}
+			i = j
+			continue
+		}
+		out = append(out, b[i])
+	}
+	return out
+}
+
 func trimNL(b []byte) []byte {
 	if len(b) > 0 && b[len(b)-1] == '\n' {
 		return b[:len(b)-1]
@@ -63,6 +80,11 @@ var c13Variants = []variant{
 		return json.MarshalWithOption(x, json.Colorize(&json.ColorScheme{}))
 	}, nil},
 	{"Colorize(marked scheme)", func(x interface{}) ([]byte, error) { return json.MarshalWithOption(x, json.Colorize(c13Marked)) }, c13Strip},
+	// a scheme whose markers contain a character that JSON escapes (ESC, as in terminal colours): a marker that gets
+	// into a string VALUE is escaped there and cannot be removed any more
+	{"Colorize(default scheme)", func(x interface{}) ([]byte, error) {
+		return json.MarshalWithOption(x, json.Colorize(json.DefaultColorScheme))
+	}, c13StripANSI},
 	{"MarshalNoEscape", func(x interface{}) ([]byte, error) { return json.MarshalNoEscape(x) }, nil},
 	{"MarshalContext", func(x interface{}) ([]byte, error) { return json.MarshalContext(context.Background(), x) }, nil},
 	{"Debug", func(x interface{}) ([]byte, error) { return json.MarshalWithOption(x, json.DebugWith(io.Discard)) }, nil},
